@@ -330,6 +330,16 @@ class Guards:
             dtm = R.builder + '._dirs_to_make'
             req['PARENTS_MAKEABLE'] = [
                 ('node', lambda sn: Q.is_done(sn, dtm))]
+            # the overlay mirrors execution: the output's directories are
+            # regarded as created while its recorded suboperations are
+            # replayed, and the output is closed (visible / removed again)
+            req['OVERLAY_STARTED'] = [('node', lambda sn: Q.is_done(
+                sn, 'CreatedFiles.started_building_file'))]
+            req['OVERLAY_CLOSED'] = [
+                ('node', lambda sn: Q.is_done(
+                    sn, 'CreatedFiles.finished_building_file')),
+                ('node', lambda sn: Q.is_done(
+                    sn, 'CreatedFiles.error_building_file'))]
         if kind == 'nested_sub':
             req['KEY_FREE'] = [self.m_call(
                 {C + '.has_subbuild'}, 'F', role='new')]
